@@ -65,6 +65,15 @@ func rcBuild(c rcacheCase, cached bool) *rcTwin {
 	if cached {
 		opts = append(opts, cachingOpts(c.Cap)...)
 	}
+	// the model takes request paths literally, which is what a StrictLastSlash router does; without trailing slashes in
+	// the table and the history both modes agree, so they alternate
+	strict := strings.HasPrefix(c.Table, "strict")
+	for _, st := range c.H {
+		strict = strict || (len(st.Path) > 1 && st.Path[len(st.Path)-1] == "/")
+	}
+	if strict || (len(c.H)+c.Cap)%2 == 1 {
+		opts = append(opts, rux.StrictLastSlash)
+	}
 	t := &rcTwin{r: newRouter(opts...)}
 	for i, row := range rcacheTables[c.Table] {
 		tag := fmt.Sprintf("r%d", i+1)
